@@ -333,6 +333,11 @@ func ruleEscapeSet(r *Run) {
 	// the escape is "%" followed by exactly two hex digits: a format verb without zero padding (%x) writes one digit
 	// for bytes below 0x10 and the receiver decodes another message
 	if ec, ok := escape.(ssa.CallInstruction); ok {
+		// a number formatter without padding (strconv.FormatUint(c, 16), AppendInt, …) writes one digit below 0x10
+		switch n := calleeName(ec); {
+		case strings.HasPrefix(n, "strconv.Format") || strings.HasPrefix(n, "strconv.Append") || n == "strconv.Itoa":
+			r.bad("encodeGrpcMessage/escape-format", escape.Pos(), "the escaped byte is formatted with %s, which does not pad to two hex digits: bytes below 0x10 (tab, newline, …) are written with a single digit and the client's percent-decoding yields a different grpc-message", shortName(n))
+		}
 		for _, a := range ec.Common().Args {
 			if f, isS := constString(a); isS && strings.Contains(f, "%") {
 				good := strings.Contains(f, "%%%02x") || strings.Contains(f, "%%%02X")
